@@ -13,10 +13,11 @@ import GoDcp.Driver.SrcFacts
 import GoDcp.Driver.MembershipPause
 import GoDcp.Driver.HaMembership
 import GoDcp.Driver.RmE2E
+import GoDcp.Driver.ReadOnly
 /-! registry of all stateless handlers (one list per slice) -/
 namespace GoDcp.Driver
 
 def allHandlers : List (String × (List String → Option String → Option Out)) :=
-  pureHandlers ++ versionHandlers ++ rollbackHandlers ++ healthHandlers ++ keysHandlers ++ asyncOpHandlers ++ configHandlers ++ lifeHandlers ++ wireHandlers ++ membershipHandlers ++ minSeqNoHandlers ++ srcFactHandlers ++ membershipPauseHandlers ++ haMembershipHandlers ++ rmE2EHandlers
+  pureHandlers ++ versionHandlers ++ rollbackHandlers ++ healthHandlers ++ keysHandlers ++ asyncOpHandlers ++ configHandlers ++ lifeHandlers ++ wireHandlers ++ membershipHandlers ++ minSeqNoHandlers ++ srcFactHandlers ++ membershipPauseHandlers ++ haMembershipHandlers ++ rmE2EHandlers ++ readOnlyHandlers
 
 end GoDcp.Driver
